@@ -15,7 +15,7 @@
 (***************************************************************************)
 EXTENDS Naturals, Sequences, FiniteSets, SequencesExt
 
-CONSTANT Configs     \* set of [mode, optical, radio, writeStages, survivors]
+CONSTANT Configs     \* set of [mode, optical, radio, writeStages, survivors, stale]   (stale: a file of an EARLIER run already sits at the output path)
 
 (* ---- the boundary table (DESIGN Appendix B) ------------------------------ *)
 OptMetaKeys == {"OMCINT", "OMCINTGO", "ONEVPASS", "OMCINTUN"}
@@ -79,9 +79,13 @@ vars == <<cfg, done, mem, disk, pending, phase>>
 EmptyTable == [cols |-> <<>>, meta |-> {}]
 Absent     == [present |-> FALSE, cols |-> <<>>, meta |-> {}]
 OnDisk(t)  == [present |-> TRUE, cols |-> t.cols, meta |-> t.meta]
+(* history: the output path may already hold the file of an earlier run (other columns, other header); the simulation replaces it *)
+(* at its first boundary when it writes stages, and leaves it alone when it does not                                              *)
+Stale      == [present |-> TRUE, cols |-> <<"stale_col">>, meta |-> {"STALE"}]
+Disk0(c)   == IF c.stale THEN Stale ELSE Absent
 
 Init == /\ cfg \in Configs
-        /\ done = {} /\ mem = EmptyTable /\ disk = Absent /\ pending = {} /\ phase = "run"
+        /\ done = {} /\ mem = EmptyTable /\ disk = Disk0(cfg) /\ pending = {} /\ phase = "run"
 
 CanDo(id) == /\ phase = "run" /\ pending = {}
              /\ id \in BIds /\ Gate(cfg, id) /\ id \notin done
@@ -144,13 +148,16 @@ Committed == [cols |-> SelectSeq(mem.cols, LAMBDA c : \A q \in pending : c \noti
 DiskIsCommitted == (cfg.writeStages /\ done # {}) => disk = OnDisk(Committed)
 
 (* C17: the file is always a prefix of the table in memory (and so of the final table) *)
-DiskIsPrefix == disk.present => IsPrefix(disk.cols, mem.cols) /\ disk.meta \subseteq mem.meta
+DiskIsPrefix == (disk.present /\ disk # Stale) => IsPrefix(disk.cols, mem.cols) /\ disk.meta \subseteq mem.meta
 
 (* C17: without writeStages the simulation writes nothing *)
-NoWriteWhenDisabled == ~cfg.writeStages => disk = Absent
+NoWriteWhenDisabled == ~cfg.writeStages => disk = Disk0(cfg)
+
+(* C17 + history: a file left by an earlier run is gone once the first boundary of this run has completed *)
+StaleReplaced == (cfg.writeStages /\ done # {}) => disk # Stale
 
 (* C17: the file never loses a column or a header value *)
-FileOnlyGrows == [][disk.present => disk'.present /\ IsPrefix(disk.cols, disk'.cols)
+FileOnlyGrows == [][(disk.present /\ disk # Stale) => disk'.present /\ IsPrefix(disk.cols, disk'.cols)
                                                         /\ disk.meta \subseteq disk'.meta]_vars
 
 (* C14: structure of the returned table: exactly the columns and header keywords of the enabled   *)
